@@ -1076,6 +1076,9 @@ fn write_code<'a, 'b: 'a>(writer: &mut impl ClassWrite, code: &'b Code, pool: &m
 				// try again, with writing this jump with a wide index as well.
 				wide.insert(unwritten.instruction_index);
 
+				#[cfg(feature = "verif")]
+				crate::verif::emit(|| crate::verif::Event::CodeAttempt { code_len: w.len(), wide: wide.len(), retry: true });
+
 				labels.next_attempt();
 				w = Vec::with_capacity(w.len());
 				continue 'a;
@@ -1084,6 +1087,9 @@ fn write_code<'a, 'b: 'a>(writer: &mut impl ClassWrite, code: &'b Code, pool: &m
 
 		break;
 	}
+
+	#[cfg(feature = "verif")]
+	crate::verif::emit(|| crate::verif::Event::CodeAttempt { code_len: w.len(), wide: wide.len(), retry: false });
 
 	let code_length = w.len() as u32;
 	if code_length == 0 || code_length > u16::MAX as u32 {
